@@ -161,7 +161,7 @@ def run_property(prop, scenarios, tier, seed, extra_assumptions=()):
             rep.cov['other_property_clauses_seen'] = foreign
             if verdicts:
                 (ck, t), (cfg, run, v) = next(iter(verdicts.items()))
-                rep.samples.append(dict(cfg=cfg, script=run['script'][:12], verdict=v, first_lines=[
+                rep.samples.append(dict(cfg=cfg, script=(run['script'] or [])[:12], verdict=v, first_lines=[
                     {k: ln[k] for k in ('k', 'sg', 'stage', 'iter', 'done', 'nact', 'time', 'dt') if k in ln}
                     for ln in run['ev'][:6]]))
             # model checking results
